@@ -353,7 +353,7 @@ def run(model, rep, tier):
     # ---------------------------------------------------------------- R-06.8
     pm = model.func("dns.name._pad_to_max_name")
     env8 = pat.Env()
-    hit = pat.find(pm.node, "while needed > ___K:\n    __nl.append(___X * ___L)\n    needed -= ___S\nif needed >= ___M:\n    __nl.append(___X * (needed - ___D))", env8)
+    hit = pat.find(pm.node, "while __needed > ___K:\n    __nl.append(___X * ___L)\n    __needed -= ___S\nif __needed >= ___M:\n    __nl.append(___X * (__needed - ___D))", env8)
     if hit is None:
         rep.blind("R-06.8", pm.qualname, where(pm, pm.node), "the padding loop `while needed > K: append(octet * L); needed -= S` followed by the tail label was not found", stmt="pad-name")
     else:
